@@ -155,7 +155,7 @@ class TaskExecutionRegistration(Registration):
         """Queue resultant observations to be saved to the database and record sensor changes."""
         self._registrant.saveObservations(results.observations)
         self._registrant.saveMissedObservations(results.missed_observations)
-        self._registrant.updateFromAsyncTaskExecution(results.sensor_info_list)
+        self._registrant.updateFromAsyncTaskExecution(results.sensor_info_list, results.target_id)
 
 
 class TaskExecutionExecutor(JobExecutor):
